@@ -40,7 +40,10 @@ def _pool_run(modname, config, shards, so, merged, fn="run_shard"):
     n = min(NPROC, max(1, len(shards)))
     with ctx.Pool(n, initializer=worker.init, initargs=(repo_path(), so, config)) as pool:
         tasks = [(modname, fn, s) for s in shards]
-        for r in pool.imap_unordered(worker.run, tasks, chunksize=1):
+        it = pool.imap_unordered(worker.run, tasks, chunksize=1)
+        for _ in tasks:
+            # a worker killed from outside would make the pool wait for ever: bound the wait
+            r = it.next(timeout=worker.SHARD_WATCHDOG + 300)
             merged.add(r, config)
 
 
